@@ -231,16 +231,17 @@ type meshConsts struct {
 var defaultConsts = meshConsts{16384, 10 * time.Second, 60 * time.Second, time.Hour, 30, 21 * time.Second}
 
 type mesh struct {
-	names   []string
-	consts  meshConsts
-	nodes   map[string]*netceptor.Netceptor
-	alive   map[string]bool
-	sess    map[string]*hSess // "x>y"
-	cost    map[string]float64
-	silent  map[string]bool
-	latency time.Duration // >0: auto delivery mode
-	step    int           // macro-step counter (batch id)
-	t0      time.Time
+	names    []string
+	consts   meshConsts
+	nodes    map[string]*netceptor.Netceptor
+	alive    map[string]bool
+	sess     map[string]*hSess // "x>y"
+	cost     map[string]float64
+	silent   map[string]bool
+	realtime bool          // not in a synctest bubble
+	latency  time.Duration // >0: auto delivery mode
+	step     int           // macro-step counter (batch id)
+	t0       time.Time
 	// canonicalisation
 	updIDs   map[string]string
 	epochs   map[string][]uint64 // node -> epochs in order of first appearance
@@ -250,6 +251,15 @@ type mesh struct {
 	idOf     map[string]string   // mesh name -> node ID when they differ (same-ID twins)
 	scripted map[string]bool     // names that are scripted peers (no real node)
 	recvd    map[string][][]byte // what each scripted peer has received (delivered messages)
+}
+
+// wait: quiescence in a bubble; a short real pause when the mesh runs in real time (QUIC loss recovery).
+func (m *mesh) wait() {
+	if m.realtime {
+		time.Sleep(15 * time.Millisecond)
+		return
+	}
+	synctest.Wait()
 }
 
 func lk(x, y string) string {
@@ -323,7 +333,7 @@ func (m *mesh) up(x, y string, c float64, mods ...func(*netceptor.BackendInfo)) 
 	m.nodes[y].AddBackend(by, mx...)
 	bx.ch <- a
 	by.ch <- b
-	synctest.Wait()
+	m.wait()
 }
 
 // attach connects a scripted peer (no real node) named peer to real node x and returns the
@@ -334,7 +344,7 @@ func (m *mesh) attach(x, peer string, mods ...func(*netceptor.BackendInfo)) *hSe
 	bx := newMemBackend()
 	m.nodes[x].AddBackend(bx, mods...)
 	bx.ch <- a
-	synctest.Wait()
+	m.wait()
 	return b
 }
 
@@ -348,7 +358,7 @@ func (m *mesh) down(x, y string) {
 	m.mu.Lock()
 	delete(m.silent, lk(x, y))
 	m.mu.Unlock()
-	synctest.Wait()
+	m.wait()
 }
 
 func (m *mesh) setSilent(x, y string) {
@@ -368,19 +378,19 @@ func (m *mesh) setSilent(x, y string) {
 func (m *mesh) stop(x string) {
 	m.nodes[x].Shutdown()
 	m.alive[x] = false
-	synctest.Wait()
+	m.wait()
 	for _, y := range m.names {
 		if _, ok := m.cost[lk(x, y)]; ok && y != x {
 			m.down(x, y)
 		}
 	}
-	synctest.Wait()
+	m.wait()
 }
 
 func (m *mesh) restart(x string) {
 	time.Sleep(1100 * time.Millisecond) // start epochs have one-second granularity
 	m.start(x)
-	synctest.Wait()
+	m.wait()
 }
 
 func (m *mesh) sortedLinks() []string {
@@ -419,7 +429,7 @@ func (m *mesh) deliverAt(k string, i int) {
 		return
 	}
 	s.inject(d)
-	synctest.Wait()
+	m.wait()
 }
 
 // flush delivers everything in flight in canonical order (link name, FIFO) until nothing is left.
@@ -448,7 +458,7 @@ func (m *mesh) flush() int {
 func (m *mesh) tick(d time.Duration) {
 	time.Sleep(d)
 	m.step++
-	synctest.Wait()
+	m.wait()
 }
 
 // settle: deliver all, tick, until no message is in flight after a tick.
@@ -486,7 +496,7 @@ func (m *mesh) end() {
 		s.Close()
 	}
 	time.Sleep(30 * time.Second)
-	synctest.Wait()
+	m.wait()
 }
 
 // ---- ground truth and the C01 oracle --------------------------------------------------------------------
